@@ -5,14 +5,19 @@ HERE = os.path.dirname(os.path.abspath(__file__))
 
 
 def harness_files(tier, seed):
-    return [os.path.join(HERE, 'hC03.py')]
+    files = [os.path.join(HERE, 'hC03.py')]
+    if tier == 'thorough':
+        # the 24 depth-3 type expressions drawn from the grammar with VERIF_SEED (props/gen_types.py), under this property's oracle
+        os.environ['VERIF_SEED'] = str(seed)
+        files.append(os.path.join(HERE, 'hC03g.py'))
+    return files
 
 
 META = dict(
     bounds="generic depth-1 interchange values: leaf | list len<=2 | dict <=2 keys (from a per-converter vocabulary of "
            "known and foreign keys) | 2-tuple | [[A],B] | {k:[A]}; leaves None/bool/int/float/str(len<=2)/bytes; ints and floats "
            "unbounded (nan/inf included)",
-    configs="converter instances enumerated (see per_obligation): all 17 converter classes, 3 tag layouts, both dataclass layouts",
+    configs="converter instances enumerated (see per_obligation): all 17 converter classes, 3 tag layouts, both dataclass layouts + thorough tier: 24 type expressions of nesting depth 3 drawn from the grammar with VERIF_SEED (props/gen_types.py), type-directed values with 3 symbolic leaf slots, under this property's oracle",
     stubs=["NestedSequenceConverter constructor: python stand-in for numpy.array"],
     outside=["numpy C boundary", "datetime/regex text beyond 1 symbolic character"],
     assumptions=["oracle: the two passes of the same converter object (no external spec)"],
